@@ -261,6 +261,7 @@ def api_recipe(rng, fixture=None):
     borders = rng.random() < .5 and not lite
     for tb, R_, C_ in tables:
         tbl = list(tb)
+        first_op = len(ops)
         if rng.random() < .6:
             for r in rng.sample(range(R_), rng.randint(1, min(3, R_))):
                 ops.append({"op": "row_height", "tbl": tbl, "r": r, "h": rng.choice([1, 10, 37, 100, 250, 500, rng.randint(1, 500)])})
@@ -282,6 +283,10 @@ def api_recipe(rng, fixture=None):
             ops.append({"op": "name_enabled", "tbl": tbl, "v": rng.random() < .5})
         if rng.random() < .3:
             ops.append({"op": "rename_table", "tbl": tbl, "name": rng.choice(["Renommé", "T " + str(rng.randrange(100))])})
+        # the setters are independent of each other: any order (visibility before or after the text, name before or after sizes)
+        mine = ops[first_op:]
+        rng.shuffle(mine)
+        ops[first_op:] = mine
         if borders:
             for _ in range(rng.randint(1, 4)):
                 r, c = rng.randrange(R_), rng.randrange(C_)
@@ -331,14 +336,19 @@ def api_case(case, rec):
                 asked[(tuple(op["tbl"]), k)] = op["n"]
             elif k == "caption":
                 asked[(tuple(op["tbl"]), k)] = op["text"]
-            elif k in ("name_enabled",):
+            elif k == "name_enabled":
                 asked[(tuple(op["tbl"]), k)] = op["v"]
+            elif k == "caption_enabled":
+                # a table of a source document that never had a caption holds a stand-in: the library reports its caption as
+                # not visible until a text is set (then, in whichever order the two were set, the visibility asked for holds)
+                if not case.get("fixture") or any(o2["op"] == "caption" and o2["tbl"] == op["tbl"] for o2 in recipe["ops"]):
+                    asked[(tuple(op["tbl"]), k)] = op["v"]
             elif k == "rename_table":
                 asked[(tuple(op["tbl"]), "name")] = op["name"]
         for key, want in asked.items():
             tb = g_set[key[0][0]]["tables"][key[0][1]]
             got = {"row_height": lambda: tb["row_heights"][key[2]], "col_width": lambda: tb["col_widths"][key[2]], "header_rows": lambda: tb["num_header_rows"],
-                   "header_cols": lambda: tb["num_header_cols"], "caption": lambda: tb["caption"], "name_enabled": lambda: tb["table_name_enabled"],
+                   "header_cols": lambda: tb["num_header_cols"], "caption": lambda: tb["caption"], "name_enabled": lambda: tb["table_name_enabled"], "caption_enabled": lambda: tb["caption_enabled"],
                    "name": lambda: tb["name"]}[key[1]]()
             rec.count("api_values_checked")
             if got != want:
